@@ -648,7 +648,9 @@ pub(crate) fn shr(lhs: Number, rhs: Number, arena: &mut Arena) -> Result<Number,
                 }
             };
 
-            let res = lhs.get_num().checked_shr(rhs).unwrap_or(0);
+            // shifting out every bit of a negative number leaves -1 (floor), not 0
+            let lhs = lhs.get_num();
+            let res = lhs.checked_shr(rhs).unwrap_or(if lhs < 0 { -1 } else { 0 });
             Ok(Number::arena_from(res, arena))
         }
         Number::Integer(lhs) => {
@@ -664,7 +666,15 @@ pub(crate) fn shr(lhs: Number, rhs: Number, arena: &mut Arena) -> Result<Number,
                 }
             };
 
-            Ok(Number::arena_from(Integer::from(&*lhs >> rhs), arena))
+            // floor semantics for negative numbers at every shift amount:
+            // x >> n == !(!x >> n) where !x = -x - 1 is non-negative
+            let res = if lhs.is_negative() {
+                let complement = -Integer::from(&*lhs + Integer::ONE);
+                -(Integer::from(complement >> rhs) + Integer::ONE)
+            } else {
+                Integer::from(&*lhs >> rhs)
+            };
+            Ok(Number::arena_from(res, arena))
         }
         other => Err(numerical_type_error(ValidType::Integer, other, stub_gen)),
     }
